@@ -5,6 +5,9 @@
      getMessage / getMessageln
      log / logln     level pre-check, Logger.Check, ce.Write(sweetenFields(context)...)
      With / WithLazy s.base.With(s.sweetenFields(args)...)
+     the core's LevelEnabler: an ARBITRARY predicate on levels (a plain zapcore.Level, a
+                     LevelEnablerFunc, an AtomicLevel that moves between the calls); the
+                     sugar's gate asks exactly this predicate (s.base.Core().Enabled(lvl))
 
    Go values are an abstract type [V]; zapcore.Field is an abstract type [F].  The
    type assertions of the sweep and the field constructors it calls are parameters
@@ -225,16 +228,33 @@ Section Sugar.
     | FamLn => slogln lg (c_lvl c) (c_sprintln c) []                                     (* s.logln(lvl, args, nil) *)
     end.
 
-  (* a program: a chain of With/WithLazy calls, then one logging call *)
-  Fixpoint run (lg : logger) (withs : list (list V)) (c : call) : list entry * term :=
-    match withs with
+  (* the gate of SugaredLogger.log / logln, as a predicate: the call goes on to format its
+     message and to Logger.Check iff the core's enabler accepts the level or the level is
+     DPanic or above ("lvl < DPanicLevel && !s.base.Core().Enabled(lvl)" returns early) *)
+  Definition sugar_gate (lg : logger) (lvl : Z) : bool :=
+    negb ((lvl <? DPanicLevel)%Z && negb (lg_en lg lvl)).
+
+  (* the core's enabler changes (AtomicLevel.SetLevel, a LevelEnablerFunc over mutable state):
+     every logger derived from the core sees the new predicate; context and options stay *)
+  Definition set_en (lg : logger) (en : Z -> bool) : logger :=
+    {| lg_ctx := lg_ctx lg; lg_en := en; lg_dev := lg_dev lg |}.
+
+  (* a history before the logging call: With/WithLazy calls and changes of the core's enabler *)
+  Inductive step :=
+  | SWith (args : list V)
+  | SSetEn (en : Z -> bool).
+
+  (* a program: a chain of With/WithLazy calls interleaved with enabler changes, then one logging call *)
+  Fixpoint run (lg : logger) (steps : list step) (c : call) : list entry * term :=
+    match steps with
     | [] => do_call lg c
-    | a :: r =>
+    | SWith a :: r =>
         match swith lg a with
         | Done (lg', es) => let '(es', t) := run lg' r c in (es ++ es', t)
         | OutOfRange (_, es) => (es, TCrash)
         | OutOfFuel => ([], TCrash)
         end
+    | SSetEn en :: r => run (set_en lg en) r c
     end.
 
   (* ================= specification (independent of the sweep) ================= *)
@@ -316,14 +336,26 @@ Section Sugar.
     then map (fun c => {| en_lvl := ErrorLevel; en_msg := fst c; en_fields := lg_ctx lg ++ snd c |}) cs
     else [].
 
-  (* With chain: context grows by the well-formed arguments, diagnostics carry the old context *)
-  Fixpoint spec_withs (lg : logger) (withs : list (list V)) : logger * list entry :=
-    match withs with
+  (* With chain: context grows by the well-formed arguments, diagnostics carry the old context and
+     are error-level entries under the enabler in force AT THAT With; an enabler change replaces
+     the predicate for everything that follows *)
+  Fixpoint spec_withs (lg : logger) (steps : list step) : logger * list entry :=
+    match steps with
     | [] => (lg, [])
-    | a :: r =>
+    | SWith a :: r =>
         let '(fs, cs) := spec_sweeten a in
         let '(lg', es) := spec_withs {| lg_ctx := lg_ctx lg ++ fs; lg_en := lg_en lg; lg_dev := lg_dev lg |} r in
         (lg', spec_diag_entries lg cs ++ es)
+    | SSetEn en :: r =>
+        spec_withs {| lg_ctx := lg_ctx lg; lg_en := en; lg_dev := lg_dev lg |} r
+    end.
+
+  (* the enabler in force when the logging call is made: the last change, if any *)
+  Fixpoint final_en (en : Z -> bool) (steps : list step) : Z -> bool :=
+    match steps with
+    | [] => en
+    | SWith _ :: r => final_en en r
+    | SSetEn e :: r => final_en e r
     end.
 
   (* the message the property prescribes; [None] = no message satisfies it *)
@@ -351,6 +383,8 @@ Arguments Build_entry {F}.
 Arguments c_fam {V}. Arguments c_lvl {V}. Arguments c_text {V}. Arguments c_args {V}.
 Arguments c_sprint {V}. Arguments c_sprintf {V}. Arguments c_sprintln {V}.
 Arguments Build_call {V}.
+Arguments SWith {V}. Arguments SSetEn {V}.
+Arguments sugar_gate {F}. Arguments set_en {F}.
 Arguments call_context {V}.
 Arguments spec_diag_entries {F}.
 Arguments base_error {F}. Arguments diag_entries {F}. Arguments terminal {F}.
@@ -368,7 +402,14 @@ Arguments base_error {F}. Arguments diag_entries {F}. Arguments terminal {F}.
      encv   the encoder calls made by zap.Any("value", v).AddTo(enc)            [oracle: direct call]
      typ rend  %T and an address-free rendering (information for replays only)
    field  f = (key type integer string iface);  iface = (typ rend)
-   case   i = ((en-1 en0 en1 en2 en3 en4 en5) dev ((lazy (v ...)) ...) (fam lvl text (v ...) sprint sprintf sprintln generic))
+   enab   e = (0 (l ...))   the core enables exactly the listed levels (a zap.LevelEnablerFunc: any subset of
+                            int8, levels below Debug and above Fatal included, not monotone in general)
+            | (1 min)       a plain zapcore.Level used as the enabler: l >= min (min may be below Debug)
+            | (2 min)       a zap.AtomicLevel currently at min: l >= min
+   step   s = (0 lazy (v ...))   With / WithLazy
+            | (1 e)              the core's enabler becomes e (AtomicLevel.SetLevel / the state read by the
+                                 LevelEnablerFunc changes) -- seen by every logger derived so far
+   case   i = (e dev (s ...) (fam lvl text (v ...) sprint sprintf sprintln generic))
    obs    o = (term ((lvl msg (f ...)) ...))     term 0 none | 1 panic | 2 fatal hook | 3 other run-time panic *)
 Definition ArrayMarshalerType : Z := 1%Z.
 Definition s_Int64 : bytes := Eval vm_compute in bs "Int64"%string.
@@ -397,11 +438,17 @@ Definition w_run := run sx sx w_as_field w_is_error w_as_string w_any w_named_er
 Definition w_spec_sweeten := spec_sweeten sx sx w_as_field w_is_error w_as_string w_any w_named_error w_array_invalid.
 Definition w_spec_withs := spec_withs sx sx w_as_field w_is_error w_as_string w_any w_named_error w_array_invalid.
 
+(* the enabler predicate: membership for a LevelEnablerFunc given by its extension,
+   zapcore.Level.Enabled (l >= min) for a plain Level and for an AtomicLevel *)
 Definition dec_en (s : sx) (l : Z) : bool :=
-  if ((-1 <=? l) && (l <=? 5))%Z then sx_bool (sx_nth s (Z.to_nat (l + 1))) else false.
+  if (sx_z (sx_nth s 0) =? 0)%Z
+  then existsb (fun x => (sx_z x =? l)%Z) (sx_l (sx_nth s 1))
+  else (sx_z (sx_nth s 1) <=? l)%Z.
 Definition dec_logger (i : sx) : logger sx :=
   {| lg_ctx := []; lg_en := dec_en (sx_nth i 0); lg_dev := sx_bool (sx_nth i 1) |}.
-Definition dec_withs (i : sx) : list (list sx) := map (fun w => sx_l (sx_nth w 1)) (sx_l (sx_nth i 2)).
+Definition dec_step (w : sx) : step sx :=
+  if (sx_z (sx_nth w 0) =? 0)%Z then SWith (sx_l (sx_nth w 2)) else SSetEn (dec_en (sx_nth w 1)).
+Definition dec_withs (i : sx) : list (step sx) := map dec_step (sx_l (sx_nth i 2)).
 Definition dec_fam (z : Z) : family :=
   match z with 0%Z => FamW | 1%Z => FamPrint | 2%Z => FamF | _ => FamLn end.
 Definition dec_call (i : sx) : call sx :=
@@ -421,9 +468,11 @@ Definition model (i : sx) : sx :=
 
 (* ---- the property's oracle on an arbitrary observation ----
    no run-time panic; the entries are: the diagnostics of every With (error level, context
-   of the receiver), then -- when the call's level is enabled -- the diagnostics of the call
+   of the receiver, under the enabler in force at that With), then -- when the core's enabler
+   AT THE TIME OF THE CALL accepts the call's level, whatever that level is (named or not, below
+   Debug or above Fatal) and whatever kind of enabler it is -- the diagnostics of the call
    followed by ONE entry at the call's level whose message satisfies [msg_ok] and whose fields
-   are the context plus the well-formed arguments in order.  When the call's level is disabled
+   are the context plus the well-formed arguments in order.  When the enabler rejects the level
    no entry at that level may appear (its diagnostics may or may not). *)
 Definition spec (i o : sx) : bool :=
   let lg := dec_logger i in
@@ -435,7 +484,7 @@ Definition spec (i o : sx) : bool :=
   let obs := sx_l (sx_nth o 1) in
   let pre := map enc_entry (wes ++ des) in
   ((0 <=? t) && (t <=? 2))%Z &&
-  (if lg_en lg (c_lvl c) then
+  (if lg_en lg' (c_lvl c) then
      match rev obs with
      | last :: rpre =>
          sx_eqb (SL (rev rpre)) (SL pre) &&
